@@ -118,6 +118,12 @@ class Guard:
                 d = d | {('pos', a.name, ks[0])}
             d = d | {('notnone', a.name), ('exc', a.name)}
             return d
+        if n.kind == 'stmt' and isinstance(a, ast.Assign) and len(a.targets) == 1 and isinstance(a.targets[0], ast.Tuple) and isinstance(a.value, ast.Tuple) and len(a.targets[0].elts) == len(a.value.elts):
+            # a, b = None, None
+            for t, v in zip(a.targets[0].elts, a.value.elts):
+                if isinstance(t, ast.Name) and isinstance(v, ast.Constant):
+                    d = d | ({('none', t.id)} if v.value is None else {('notnone', t.id)})
+            return d
         if n.kind == 'stmt' and isinstance(a, ast.Assign) and len(a.targets) == 1 and isinstance(a.targets[0], ast.Name):
             var = a.targets[0].id
             v = a.value
